@@ -3,6 +3,7 @@ import Resolvo.Oracles
 import Resolvo.Drv.Trace
 import Resolvo.Graph
 import Resolvo.MDet.Checked
+import Resolvo.MDet.Graph
 /-! Driver for the solver families: evaluates the oracles on the implementation's outputs. -/
 namespace Resolvo.Drv
 open Resolvo
@@ -207,7 +208,7 @@ def mdetInit (cfg : String) : Resolvo.MDet.S :=
   | _ => s0
 
 /-- Exact correspondence: the model's observations of one solve vs the implementation's. -/
-def mdetCompare (o : Resolvo.MDet.Outcome) (newLog : List String) (newTrace : List String) (r : ImplSolve) : List String :=
+def mdetCompare (U : Universe) (ms : Resolvo.MDet.S) (o : Resolvo.MDet.Outcome) (newLog : List String) (newTrace : List String) (r : ImplSolve) : List String :=
   let (mres, msol, mconf) : String × List Nat × List Nat := match o with
     | .ok sol => ("ok", sol, [])
     | .unsat c => ("unsat", [], c)
@@ -227,7 +228,17 @@ def mdetCompare (o : Resolvo.MDet.Outcome) (newLog : List String) (newTrace : Li
     let k := ((newTrace.zip r.trace).takeWhile (fun p => p.1 == p.2)).length
     [s!"oracle-fail C01,C02,C03,C05,C06,C14,C15 mdet-trace: solver history differs at event {k}: implementation `{r.trace.getD k "<end>"}` model `{newTrace.getD k "<end>"}`"]
   else if mconf != r.conflictClauses then [s!"oracle-fail C03,C06 mdet-conflict-clauses: implementation [{natList r.conflictClauses}] model [{natList mconf}]"]
-  else ["info mdet-exact 1"]
+  else
+    -- Conflict::graph
+    let g := if mres == "unsat" && !(r.graphNodes.isEmpty && r.graphEdges.isEmpty) then
+        let (nodes, edges) := Resolvo.MDet.conflictGraph U ms mconf
+        let mn := Resolvo.MDet.sortStr (nodes.map Resolvo.MDet.nodeStr)
+        let me := Resolvo.MDet.sortStr (edges.map Resolvo.MDet.edgeStr)
+        if me != r.graphEdges then [s!"oracle-fail C03,C06 mdet-graph: conflict graph edges differ: implementation [{" ".intercalate r.graphEdges}] model [{" ".intercalate me}]"]
+        else if mn != r.graphNodes then [s!"oracle-fail C03,C06 mdet-graph: conflict graph nodes differ: implementation [{" ".intercalate r.graphNodes}] model [{" ".intercalate mn}]"]
+        else []
+      else []
+    g ++ ["info mdet-exact 1"]
 
 def runSolve (lines : List String) : List String :=
   let caseLines := lines.filter (fun l => !l.startsWith "> ")
@@ -252,7 +263,7 @@ def runSolve (lines : List String) : List String :=
               | .ok _ => ["info checked ok"]
               | .unsat _ => ["info checked unsat"]
               | .stop _ => ["info checked stop"]
-            (mdetCompare o newLog (ms'.trace.reverse.map Resolvo.MDet.evLine) i ++ chk, ms')
+            (mdetCompare U ms' o newLog (ms'.trace.reverse.map Resolvo.MDet.evLine) i ++ chk, ms')
           else ([], ms)
         -- C15 family: the spec-level expectation (two candidates of one package required => Unsolvable; one => solvable)
         let expect := (caseLines.find? (fun l => l.startsWith "expect ")).map (fun l => (l.drop 7).toString)
